@@ -67,6 +67,13 @@ func (o Opts) Options(ctx context.Context, target string) []gtree.Option {
 	if target != "" || o.PassEmptyTarget {
 		opts = append(opts, gtree.WithTargetDir(target))
 	}
+	if o.NilOpts {
+		with := []gtree.Option{nil}
+		for _, op := range opts {
+			with = append(with, op, nil)
+		}
+		opts = with
+	}
 	return opts
 }
 
